@@ -24,8 +24,13 @@ SOURCES = [
     ('syntax', 'x y'), ('syntax', 'a\nb\nc d'), ('syntax', '[1,\n2,\n3]\nx y'), ('syntax', '1; 2; x y'), ('reserved', 'for'), ('reserved', '1 + while'),
     ('runtime', 'undefined_name'), ('runtime', '[1][5]'), ('runtime', 'pop([])'), ('runtime', '1 / 0'), ('runtime', 'nofn()'),
     ('valid', 'total = 5'), ('runtime', 'total'), ('runtime', 'x + 1'), ('valid', 'len = 3'), ('valid', 'k = 7\nk'), ('runtime', 'k'),
+    ('syntax', '1 +\n2'), ('syntax', 'total =\n5'), ('syntax', '[1, 2] |\nlen'), ('syntax', '\n\nx = 1\ny = 2 oops'), ('syntax', '\r\n  \nq = [1,\n2]\nq q'),
+    ('valid', 'a = 1\n-2'), ('valid', 'x = 1\n[2]'), ('valid', 'f = v => v\n(1)'),
     ('opslimit', '[1, 2, 3, 4, 5, 6, 7, 8] | map(v => v + 1) | map(v => v * 2) | map(v => v - 1) | map(v => v)'),
 ]
+SHADOW_USES = [('len', 'len("abc")'), ('len', 'q = [1, 2, 3] | len\nq'), ('str', 'str(12) + "a"'), ('max', 'max(1, 2)'), ('lower', '"AB" | lower'),
+               ('sorted', '[3, 1, 2] | sorted'), ('keys', 'keys({"a": 1})'), ('round', 'round(2.5)'), ('map', '[1, 2] | map(v => v + 1)'),
+               ('list', '[1, 2]'), ('dict', '{"a": 1}'), ('__getitem__', '[1, 2][0]')]
 NEAR = [lambda s: s, lambda s: s + '\n', lambda s: ' ' + s, lambda s: '\n' + s, lambda s: s + '  ', lambda s: s + '\n\n']
 
 
@@ -86,7 +91,8 @@ def tree_digest(t):
     """Structural snapshot of a dataclass tree (no identities)."""
     import dataclasses
     if dataclasses.is_dataclass(t):
-        return (type(t).__name__, [(f.name, tree_digest(getattr(t, f.name))) for f in dataclasses.fields(t)])
+        # fields that take part in equality: a field declared compare=False is the implementation's own bookkeeping
+        return (type(t).__name__, [(f.name, tree_digest(getattr(t, f.name))) for f in dataclasses.fields(t) if f.compare])
     if isinstance(t, (list, tuple)):
         return [tree_digest(x) for x in t]
     if isinstance(t, Decimal):
@@ -255,6 +261,18 @@ def run_cache_sequence(seq_seed, length, kind):
     # repeated and near-duplicate sources
     calls = calls + [dict(c, src=r.choice(NEAR)(c['src'])) for c in r.sample(calls, min(len(calls), length // 2))]
     r.shuffle(calls)
+    if r.random() < 0.4:
+        # a story: a text that uses a builtin is evaluated, the name is then shadowed (by the program on a persistent names
+        # mapping, or by the host putting a function / a value under that name), and the same text is evaluated again
+        b, use = r.choice(SHADOW_USES)
+        n = r.choice([0, 1, 2])
+        shadow = r.choice([{'op': 'eval', 'src': '%s = v => 42' % b, 'kind': 'valid', 'n': n, 'max': None},
+                           {'op': 'eval', 'src': '%s = 7' % b, 'kind': 'valid', 'n': n, 'max': None},
+                           {'op': 'host_set', 'src': '', 'kind': 'valid', 'n': n, 'key': b, 'val': r.choice(['fn', 'value'])}])
+        first = {'op': r.choice(['eval', 'eval', 'parse']), 'src': use, 'kind': 'valid', 'n': n, 'max': None}
+        again = {'op': 'eval', 'src': r.choice([use, use, use + '  ']), 'kind': 'valid', 'n': n, 'max': None}
+        at = r.randrange(0, len(calls) + 1)
+        calls = calls[:at] + [first, shadow, again] + calls[at:]
     cache = make_cache(kind, SqParser)
     K = SqParser(parse_cache=cache)
     U = SqParser()
@@ -263,6 +281,11 @@ def run_cache_sequence(seq_seed, length, kind):
     parsed_ok = set(cache) if hasattr(cache, 'keys') else set()
     for i, c in enumerate(calls):
         n = c.get('n', 0)
+        if c['op'] == 'host_set':
+            val = (lambda *a: 'host') if c['val'] == 'fn' else 'a host value'
+            names_k[n][c['key']] = val
+            names_u[n][c['key']] = val
+            continue
         snap_before = {k: tree_digest(cache[k]) for k in list(cache)}
         ok = do_call(K, c, names_k[n] if n is not None else None)
         ou = do_call(U, c, names_u[n] if n is not None else None)
